@@ -12,6 +12,7 @@ import (
 	"time"
 
 	yae "github.com/goghcrow/yae"
+	"github.com/goghcrow/yae/fun"
 	"github.com/goghcrow/yae/types"
 	"github.com/goghcrow/yae/val"
 )
@@ -299,6 +300,16 @@ func c18Pair(r *Run, x, y *val.Val, sameByConstruction bool) {
 	}); pan {
 		r.Violate("panic", what, msg)
 		return
+	}
+	// correspondence with the model: rendering, key, equality, string()
+	r.Case(L(A("render"), ValSx(x)), Bytes(sx))
+	r.Case(L(A("valeq"), ValSx(x), ValSx(y)), Bool(eq))
+	r.Case(L(A("stringify"), ValSx(x)), Bytes(fun.VerifStringify(x)))
+	if x.Type.Kind.IsPrimitive() {
+		r.Case(L(A("key"), ValSx(x)), L(A("ok"), Bytes(x.Key().String())))
+	}
+	if eq && fun.VerifStringify(x) != fun.VerifStringify(y) && !hasKind(x, types.KNum) {
+		r.Violate(c18Class("string-builtin-differs-on-equal-values", x, y), what, fmt.Sprintf("%q / %q", fun.VerifStringify(x), fun.VerifStringify(y)))
 	}
 	if eq {
 		r.Count("pair:equal")
